@@ -809,6 +809,9 @@ def _sig(kind_set):
             elif k == "tag":
                 if case.get("tag") not in v:
                     return False
+            elif k == "flow":
+                if case.get("cfg", {}).get("flow") not in v:
+                    return False
             elif k == "close_flags":
                 # flags <tpaused><rpaused><parser open><eof><has_more> when the peer closed / the consumer got stuck
                 f = case.get("close_flags") or ""
